@@ -1,12 +1,74 @@
 /-
 C15 — one decode call consumes exactly one picture of a stream.  Property theorems only.
-(PARTIAL: the loop-termination fact that makes a call stop at the picture's last macroblock is proved;
-the statement for whole concatenated streams is carried by the correspondence runs: N pictures in one
-reader vs. one reader per picture, both modes, paddings 0..7.)
+
+Sorenson Spark streams: proved in full below (`one_call_one_picture`, `stream_decodes_picture_by_picture`).  Standard H.263
+streams (where the macroblock loop may also end through the GOB resynchronisation path) are carried by the correspondence
+runs: N pictures in one reader vs. one reader per picture, both modes, paddings 0..7.
 -/
 import H263V.Model.State
+import H263V.Lemmas.SorensonPicture
+import H263V.Model.System
 namespace H263V.Thm.C15
-open H263V H263V.State
+open H263V H263V.State H263V.Lemmas.SorensonPicture H263V.Lemmas.PictureRoundTrip
+
+/-- **One call, one picture.**  A valid Sorenson picture (any header fields, any size, any macroblock mix incl. stuffing, escapes,
+four-vector and not-coded macroblocks; described by `SPic.Valid`), preceded by `k ≤ 7` zero stuffing bits within the alignment
+window of the current position and followed by *anything* (`rest`: the next picture's start code, padding, garbage, nothing):
+the call behaves exactly as on the picture alone — same success or error, same committed state — and on success the reader
+stands exactly at `rest`: not one bit of the following data has been consumed, no bit of the picture is left over. -/
+theorem one_call_one_picture (s : State) (hs : s.opts.sorenson = true) (hr : s.running = 0) (p : SPic) (w h : Nat)
+    (hv : p.Valid s.opts w h) (k : Nat) (hk : k ≤ 7) (rest : Bits) (pos : Nat) (hwin : k ≤ realignmentBits ⟨[], pos⟩ + 1) :
+    decodeNextPicture s ⟨zeros k ++ (p.bits ++ rest), pos⟩ =
+      decodeNextPicture s ⟨p.bits, 0⟩ >>= fun r => .ok (r.1, ⟨rest, pos + k + p.bits.length⟩) := by
+  rw [decode_spic_padded s hs hr p w h hv k rest pos hk hwin]
+  have e0 := decode_spic s hs hr p w h hv [] 0
+  rw [List.append_nil] at e0
+  rw [e0]
+  cases semCore s (Spec.HeaderSpec.sorensonPicture p.hdr) p.mbs <;> rfl
+
+/-- **Streams.**  `n` pictures in one reader — each brought to a byte boundary by zero bits, the first at any bit position,
+anything behind the last — decode call after call to the same decoder states (hence the same pictures and the same errors)
+as the same pictures decoded from one reader each, and the reader ends exactly behind the last picture. -/
+theorem stream_decodes_picture_by_picture (o : DecOpts) (ho : o.sorenson = true) (ps : List SPic) (s : State) (pos : Nat)
+    (tail : Bits) (hso : s.opts = o) (hr : s.running = 0) (hv : ∀ p ∈ ps, ∃ w h, p.Valid o w h) :
+    decodeCalls ps.length s ⟨stream ps pos ++ tail, pos⟩ =
+      decodeAlone s ps >>= fun s' => .ok (s', ⟨tail, streamEnd ps pos⟩) :=
+  calls_eq_alone o ho ps s pos tail hso hr hv
+
+/-- the carried-over options are empty in every state a fresh decoder can reach (the hypothesis `s.running = 0` above) -/
+theorem running_zero_of_history (o : DecOpts) (c0 : Cur) (ops : List System.Op) :
+    (System.run ⟨State.new o, c0⟩ ops).1.st.running = 0 ∧ (System.run ⟨State.new o, c0⟩ ops).1.st.opts = o := by
+  suffices h : ∀ (ops : List System.Op) (i : System.Inst), i.st.running = 0 ∧ i.st.opts = o →
+      (System.run i ops).1.st.running = 0 ∧ (System.run i ops).1.st.opts = o from h ops _ ⟨rfl, rfl⟩
+  intro ops
+  induction ops with
+  | nil => intro i hi; exact hi
+  | cons op rest ih =>
+    intro i hi
+    simp only [System.run]
+    apply ih
+    cases op with
+    | feed bits => exact hi
+    | cleanup => exact hi
+    | decode =>
+      simp only [System.step]
+      cases hd : decodeNextPicture i.st i.cur with
+      | ok r =>
+        simp only
+        unfold decodeNextPicture at hd
+        cases hc : decodeCore i.st i.cur with
+        | ok x =>
+          rw [hc] at hd
+          simp only [Out.bind_ok, Out.pure_eq, Out.ok.injEq] at hd
+          rw [← hd]
+          obtain ⟨k1, k2⟩ := commit_keeps i.st x.1 x.2.1
+          exact ⟨by rw [k2]; exact hi.1, by rw [k1]; exact hi.2⟩
+        | err e => rw [hc] at hd; simp at hd
+        | panic m => rw [hc] at hd; simp at hd
+        | fuel => rw [hc] at hd; simp at hd
+      | err e => exact hi
+      | panic m => exact hi
+      | fuel => exact hi
 
 /-- Once the picture's macroblocks are all decoded the macroblock loop stops without reading a single further bit,
 whatever follows in the stream (the next picture's start code, padding, garbage). -/
